@@ -699,9 +699,9 @@ func runW4C09(t *testing.T, job *Job, seed uint64, rp *Replay) RunOut {
 	var contents [][]byte
 	var notes []string
 	if rp != nil && rp.Override && len(rp.Ops) > 0 {
-		var s string
-		json.Unmarshal(rp.Ops, &s)
-		contents = [][]byte{[]byte(s)}
+		var raw []byte // base64 in the replay file: contents are arbitrary bytes
+		json.Unmarshal(rp.Ops, &raw)
+		contents = [][]byte{raw}
 		notes = []string{"replay"}
 	} else {
 		n := r.Range(1, 5)
@@ -749,7 +749,7 @@ func runW4C09(t *testing.T, job *Job, seed uint64, rp *Replay) RunOut {
 	ro.Hash = hashStr(string(contents[0]))
 	ro.Sample = fmt.Sprintf("seed=%d files=%d first: %s content=%q", seed, len(contents), shorten(notes[0], 300), shorten(string(contents[0]), 160))
 	if pv == hangMarker {
-		b, _ := json.Marshal(string(contents[0]))
+		b, _ := json.Marshal(contents[0])
 		ro.Vio = &Vio{Props: []string{"C09"}, Clause: "device_config_hang", Detail: fmt.Sprintf("%s; files: %v", hangMarker, notes)}
 		ro.Replay = &Replay{World: "W4C09", Prop: "C09", Seed: seed, Tier: job.Tier, Ops: b, Override: len(contents) == 1, Config: string(contents[0])}
 		ro.Replay.Script = nil
@@ -766,7 +766,7 @@ func runW4C09(t *testing.T, job *Job, seed uint64, rp *Replay) RunOut {
 				break
 			}
 		}
-		b, _ := json.Marshal(string(contents[culprit]))
+		b, _ := json.Marshal(contents[culprit])
 		ro.Vio = &Vio{Props: []string{"C09"}, Clause: "device_config_panic", Detail: fmt.Sprintf("LoadDeviceConfigs panicked: %v %s -- %s", pv, stack, shorten(notes[culprit], 500))}
 		ro.Replay = &Replay{World: "W4C09", Prop: "C09", Seed: seed, Tier: job.Tier, Ops: b, Override: true, Config: string(contents[culprit])}
 	}
